@@ -130,15 +130,21 @@ def check_exclusion(ctx, res: Result, dotted: str, a="order", b="size", rule="M-
     if a not in names or b not in names:
         return False
     want = ("and", frozenset([(a, False), (b, False)]))
+    neither = ("and", frozenset([(a, True), (b, True)]))  # the separate "at least one must be given" guard
     found = None
+    cands = []
     for n in walk_no_nested(v.fi.node):
         if isinstance(n, ast.If) and n.body and isinstance(n.body[0], ast.Raise):
             nf = _none_atoms(n.test)
             if nf is None:
                 continue
-            if {x for x, _ in nf[1]} == {a, b}:
-                found = (n, nf)
-                break
+            if {x for x, _ in nf[1]} == {a, b} and nf != neither:
+                cands.append((n, nf))
+    for c in cands:
+        if c[1] == want:
+            found = c
+    if found is None and cands:
+        found = cands[0]
     if found is None:
         res.violation(rule, f, f"if {a} is not None and {b} is not None: raise", "guard", f"no guard rejects a call that specifies both {a} and {b}", loc(v.fi, v.fi.node))
         return True
